@@ -294,7 +294,7 @@ def _stable_name(n):
     n = re.sub(r"^((?:encode|decode)_)[a-z0-9_]+\.", r"\1.", n)
     n = re.sub(r"\{[^{}]*\}(:[a-z-]+)?", r"\1", n)      # selector values of case-split ensures
     n = re.sub(r"^(write_bcdwide)_w\d+_c\d+_[A-Za-z]+_[a-z]+\.", r"\1.", n)
-    if re.search(r"\.(flag|unwind)(\[\d+\]|:.*)$", n):
+    if re.search(r"\.(flag|unwind)(\[\d+\]|:.*)?$", n):
         return None            # presence depends on the optimiser's output, not on the contract
     n = re.sub(r"\.(trap|bounds)(\[\d+\]|:.*)$", r".\1", n)
     n = re.sub(r"\.[A-Za-z_0-9]+\.(assert|call-pre|no-raise)$", ".code-obligations", n)
